@@ -101,3 +101,21 @@ reg("C04", "proof", ["contracts.coulomb:TwoElecKernel", "contracts.coulomb:ERIBl
     extra_assumptions=["boys_func replaced by a symbolic Boys function: the kernels are proved for ANY function with boys(m, T) = F_m(T)",
                        "trusted calculus: (ss|ss) closed form, dF_m/dT = -F_{m+1}, differentiation under the integral sign",
                        "rounding (the 1e-6 Schwarz clause, ill-conditioned quartets) is NOT covered by the deductive part"])
+
+reg("C18", "other", ["contracts.importers:MakeContractions", "contracts.importers:FromPyscf", "contracts.importers:ParserRoundTrip"],
+    ["gbasis.parsers.make_contractions", "gbasis.wrappers.from_pyscf", "gbasis.parsers.parse_nwchem (bounded)", "gbasis.parsers.parse_gbs (bounded)"],
+    note="make_contractions / from_pyscf: contracts checked on tracked argument objects over an enumerated family of molecules and coordinate-type "
+         "forms (no real-valued computation involved). parse_nwchem / parse_gbs: BOUNDED run-time round-trip contract on generated files only "
+         "(layout switches enumerated, numbers seeded); no contract within reach of the installed string solvers decides re.split.",
+    extra_assumptions=["file parsers: bounded stand-in only (generated files), never counted as proved",
+                       "GeneralizedContractionShell.assign_norm_cont replaced by a recorder while shells are built (its contract is C01)",
+                       "wrappers.from_iodata not covered (iodata package absent)"])
+
+reg("C19", "proof", ["contracts.purity:Purity", "contracts.overlap:NormContInline", "contracts.overlap:AssignNormCont", "contracts.importers:MakeContractions",
+    "contracts.esp:ESP"],
+    ["frame / fresh / errstate clauses of every public function (contracts.purity:Purity lists them)",
+     "gbasis.contractions.GeneralizedContractionShell.assign_norm_cont", "gbasis.parsers.make_contractions",
+     "gbasis.evals.electrostatic_potential.electrostatic_potential"],
+    note="per-call frame conditions proved for all real inputs on the enumerated shapes; the statement for every call sequence follows by "
+         "induction on the length of the sequence (each call starts from an unchanged state and depends only on its arguments)",
+    extra_assumptions=["history quantifier discharged by the composition lemma over per-call frames, not by exploring sequences"])
